@@ -176,7 +176,7 @@ Definition LoadAndDelete (s : mstate) (key : Z) : mstate * option Z :=
 Definition Delete (s : mstate) (key : Z) : mstate := (LoadAndDelete s key).1.
 
 (* Range, first part: promote the dirty map when read.amended *)
-Definition Range_promote (s : mstate) : mstate :=
+Definition range_promotion (s : mstate) : mstate :=
   if amended s then MState (ents s) (next_e s) (default ∅ (dirty s)) false None 0 else s.
 
 (* Range, second part: the pairs the loop can pass to f. Go visits the keys of
@@ -204,7 +204,7 @@ Fixpoint Range_loop (s : mstate) (order : list Z) (stop_after : option nat) : li
   end.
 
 Definition Range (s : mstate) (order : list Z) (stop_after : option nat) : mstate * list (Z * Z) :=
-  let s' := Range_promote s in (s', Range_loop s' order stop_after).
+  let s' := range_promotion s in (s', Range_loop s' order stop_after).
 
 (* ---- abstraction: the map[K]V the Map stands for ---- *)
 Definition reach (s : mstate) (k : Z) : option nat :=
